@@ -44,9 +44,9 @@ PROPS = {
     ),
     'C06': dict(
         title='monotonic resources: blocks disjoint, aligned, stable; release frees all once',
-        quick=[sq('sq_mres', ['--depth', '4'], budget=200)],
-        thorough=[sq('sq_mres', ['--depth', '6'], budget=1500)],
-        oracle='interval map of live blocks (aligned, inside owned memory, pairwise disjoint, disjoint from page/oversize/destroy-task arrays read from the private fields), unique fill pattern per block re-checked at every step, recording page allocator and recording upstreams (each page/oversize block returned exactly once, to where it came from, with the same bytes/alignment), destructor order, accounting; babylon\'s own ASan poisoning active',
+        quick=[sq('sq_mres', ['--depth', '4'], budget=200), mc('mc_mres', '0,3,4,5', 'sc', P=2, budget=150), mc('mc_mres', '1,2', 'sc', P=1, budget=150)],
+        thorough=[sq('sq_mres', ['--depth', '6'], budget=1500), mc('mc_mres', 'all', 'sc', P=3, budget=1500), mc('mc_mres', 'all', 'tso', P=1, D=1, budget=600)],
+        oracle='interval map of live blocks (aligned, inside owned memory, pairwise disjoint, disjoint from page/oversize/destroy-task arrays read from the private fields), unique fill pattern per block re-checked at every step, recording page allocator and recording upstreams (each page/oversize block returned exactly once, to where it came from, with the same bytes/alignment), destructor order, accounting; babylon\'s own ASan poisoning active; concurrent half (mc_mres): blocks handed to different threads (and to successive threads reusing a thread-local slot) are aligned, inside pages / oversize blocks the resource currently owns, pairwise disjoint and keep their fill pattern until release(); release() runs each registered destructor once and returns each page / oversize block exactly once; accounting; concurrent protobuf Arena conversion yields one arena',
         assumptions=['page sizes 256/512/4096; request alphabet around the page size and the 15-entry in-page arrays as listed in harness/sq_mres.cpp'],
     ),
     'C12': dict(
